@@ -350,6 +350,7 @@ class Count(Hooks):
         CALLS['iters'][CALLS['attempt']] = 0
         P = step.levels[0].prob
         CALLS['work'][CALLS['attempt']] = P.__dict__.get('_c14_evals', 0)
+        CALLS.setdefault('solves', {})[CALLS['attempt']] = P.__dict__.get('_c14_solves', 0)
 
     def pre_iteration(self, step, level_number):
         super().pre_iteration(step, level_number)
@@ -360,7 +361,8 @@ class Count(Hooks):
         a = step.__dict__['_c14_attempt']
         P = step.levels[0].prob
         CALLS.setdefault('post', []).append((a, float(step.levels[0].time), bool(step.status.restart), CALLS['iters'][a],
-                                            P.__dict__.get('_c14_evals', 0) - CALLS['work'][a], int(step.status.restarts_in_a_row), float(step.levels[0].dt)))
+                                            P.__dict__.get('_c14_evals', 0) - CALLS['work'][a], int(step.status.restarts_in_a_row), float(step.levels[0].dt),
+                                            P.__dict__.get('_c14_solves', 0) - CALLS['solves'][a]))
 
 
 class SetEst(Hooks):
@@ -390,6 +392,22 @@ def hist_case(rep, NP, MAXR, NSTEPS, FIRST, CRASH, prefix, shrink=False):
         return orig_eval(self, u, t)
 
     testequation0d.eval_f = counting_eval
+    # a second work counter (solver calls), counted independently as well: LogWork records every counter the problem declares
+    from pySDC.core.problem import WorkCounter
+
+    orig_init, orig_solve = testequation0d.__init__, testequation0d.solve_system
+
+    def counting_init(self, *a, **k):
+        orig_init(self, *a, **k)
+        self.work_counters['newton'] = WorkCounter()
+
+    def counting_solve(self, *a, **k):
+        self.__dict__['_c14_solves'] = self.__dict__.get('_c14_solves', 0) + 1
+        self.work_counters['newton']()
+        return orig_solve(self, *a, **k)
+
+    testequation0d.__init__ = counting_init
+    testequation0d.solve_system = counting_solve
 
     def fn(c):
         CALLS.clear()
@@ -407,6 +425,8 @@ def hist_case(rep, NP, MAXR, NSTEPS, FIRST, CRASH, prefix, shrink=False):
     finally:
         Hooks.add_to_stats = _orig_add
         testequation0d.eval_f = orig_eval
+        testequation0d.__init__ = orig_init
+        testequation0d.solve_system = orig_solve
     paths = [p for p in paths if p.result['used'] >= len(prefix) or all(prefix[p.result['used']:])]
     rep.paths += len(paths)
     rep.decisions += sum(len(p.decisions) for p in paths)
@@ -438,7 +458,7 @@ def judge_stats(r, NP):
     acc = [l for l in r['log'] if not l[5]]
     posts = [p for p in CALLS['post'] if not p[2]]  # accepted attempts: (attempt, time, restart, iters, evals, restarts_in_a_row)
     start_types = ['niter', 'residual_post_step', 'restart', 'dt']
-    end_types = ['u', 'k', 'work_rhs', 'e_global_post_step', 'e_local_post_step', 'error_embedded_estimate']
+    end_types = ['u', 'k', 'work_rhs', 'e_global_post_step', 'e_local_post_step', 'error_embedded_estimate', 'work_newton']
     for typ in start_types + end_types:
         recs = filter_stats(st, type=typ, recomputed=False)
         times = sorted(round(float(k.time), 9) for k in recs)
@@ -452,7 +472,7 @@ def judge_stats(r, NP):
             if len(a) != 1:
                 bad.append(('one-record-per-accepted-step', {'type': typ, 'time': k.time, 'attempts': a}))
                 continue
-            att, tm, _, iters, evals, nr, _dt = a[0]
+            att, tm, _, iters, evals, nr, _dt, solves = a[0]
             if k.num_restarts != nr:
                 bad.append(('restart-count-key', {'type': typ, 'time': k.time, 'key': k.num_restarts, 'step': nr}))
             if typ == 'niter' and (v != iters or k.iter != iters):
@@ -461,6 +481,8 @@ def judge_stats(r, NP):
                 bad.append(('niter-value', {'time': k.time, 'logged_k': v, 'callbacks': iters}))
             if typ == 'work_rhs' and v != evals:
                 bad.append(('work-counter', {'time': k.time, 'logged': v, 'evaluations_made': evals}))
+            if typ == 'work_newton' and v != solves:
+                bad.append(('work-counter', {'time': k.time, 'logged_solver_calls': v, 'solver_calls_made': solves}))
             if typ == 'restart' and v != 0:
                 bad.append(('accepted-step-flagged-restart', {'time': k.time}))
     # no silent key collisions: two add_to_stats calls from different attempts must not hit the same key
